@@ -200,6 +200,11 @@ def examples_strategy(draw, tier='quick', allow=lambda c: True,
         xs.extend(draw(st.sampled_from([['US$', 'AU$', 'US$5', 'NZ$'],
                                         ['a$', 'b$', 'a$$'],
                                         ['x^', 'y^', '^x', 'x^2']])))
+    if draw(st.integers(0, 11)) == 0:
+        # genuine values that look like the text form of a null
+        xs.extend(draw(st.lists(st.sampled_from(['nan', 'None', 'NaT',
+                                                 '<NA>', 'null', 'NULL']),
+                                min_size=1, max_size=2, unique=True)))
     extras = draw(st.lists(st.one_of(
         T.a_text(0, 8) if allow('free') else st.just('x'),
         st.just(''),
